@@ -411,6 +411,11 @@ func (vc *VC) refLeaves(term string, t types.Type, depth int) []string {
 }
 
 func (vc *VC) closedAxiom(c, version, top string, domOf func(string) string) string {
+	return vc.closedAxiomRegion(c, version, "1", top, domOf)
+}
+
+// closedAxiomRegion: closedness for the objects with lo <= ref < top
+func (vc *VC) closedAxiomRegion(c, version, lo, top string, domOf func(string) string) string {
 	ci, ok := vc.compTy[c]
 	if !ok {
 		return ""
@@ -420,12 +425,12 @@ func (vc *VC) closedAxiom(c, version, top string, domOf func(string) string) str
 	case "field", "cell":
 		val = sel(version, "r")
 		bind = "((r Int))"
-		guard = "(and (< 0 r) (< r " + top + "))"
+		guard = "(and (<= " + lo + " r) (< r " + top + "))"
 		pat = val
 	case "elems":
 		val = sel(sel(version, "r"), "j")
 		bind = "((r Int) (j Int))"
-		guard = "(and (< 0 r) (< r " + top + "))"
+		guard = "(and (<= " + lo + " r) (< r " + top + "))"
 		pat = val
 	case "mapval":
 		ks := vc.comps[c]
@@ -445,7 +450,7 @@ func (vc *VC) closedAxiom(c, version, top string, domOf func(string) string) str
 		ks = ks[:end]
 		val = sel(sel(version, "r"), "k")
 		bind = "((r Int) (k " + ks + "))"
-		guard = "(and (< 0 r) (< r " + top + ") " + sel(sel(domOf(ci.dom), "r"), "k") + ")"
+		guard = "(and (<= " + lo + " r) (< r " + top + ") " + sel(sel(domOf(ci.dom), "r"), "k") + ")"
 		pat = val
 	default:
 		return ""
